@@ -2720,4 +2720,141 @@ theorem redirect_hosts_follow_iteration_order (R : Name → Name → Prop) (π :
   have := DbaInv.outer (R := R) (pull π.dom rd) [] [] h (by simp) (fun _ h' => by simp at h')
   exact (this ad had).1
 
+
+
+/-! ### an explicit policy with issuers survives phase 1 -/
+
+theorem policyFor_addPolicy_cases {P : Params} {ap : Policy} {d : Name} :
+    ∀ l : List Policy, (admits P ap d = true ∧ policyFor P d (addPolicy P ap l) = some ap) ∨
+      policyFor P d (addPolicy P ap l) = policyFor P d l
+  | [] => by
+    by_cases h : admits P ap d = true
+    · left; exact ⟨h, by simp [addPolicy, policyFor_cons, h]⟩
+    · right; simp [addPolicy, policyFor_cons, h, policyFor]
+  | ex :: rest => by
+    unfold addPolicy
+    split
+    · by_cases h : admits P ap d = true
+      · left; exact ⟨h, by simp [policyFor_cons, h]⟩
+      · right; simp [policyFor_cons, h]
+    · rcases policyFor_addPolicy_cases (P := P) (ap := ap) (d := d) rest with ⟨h1, h2⟩ | h2
+      · by_cases hx : admits P ex d = true
+        · right; simp [policyFor_cons, hx]
+        · left; exact ⟨h1, by simp [policyFor_cons, hx, h2]⟩
+      · right; simp [policyFor_cons, h2]
+
+/-- the policies after marking: same subjects, and a policy with issuers is left alone -/
+def MarkRel (P : Params) : List Policy → List Policy → Prop
+  | [], [] => True
+  | q :: l, q' :: l' => (q' = q ∨ (q.issuers = [] ∧ q' = markOne P q)) ∧ MarkRel P l l'
+  | _, _ => False
+
+theorem MarkRel.refl (P : Params) : ∀ l, MarkRel P l l
+  | [] => trivial
+  | q :: l => ⟨Or.inl rfl, MarkRel.refl P l⟩
+
+theorem MarkRel.trans {P : Params} : ∀ {a b c : List Policy}, MarkRel P a b → MarkRel P b c → MarkRel P a c
+  | [], [], [], _, _ => trivial
+  | [], [], _ :: _, _, h => by cases h
+  | [], _ :: _, _, h, _ => by cases h
+  | _ :: _, [], _, h, _ => by cases h
+  | _ :: _, _ :: _, [], _, h => by cases h
+  | q :: a, q' :: b, q'' :: c, h1, h2 => by
+    refine ⟨?_, MarkRel.trans h1.2 h2.2⟩
+    rcases h1.1 with rfl | ⟨hi, rfl⟩
+    · exact h2.1
+    · rcases h2.1 with rfl | ⟨_, rfl⟩
+      · exact Or.inr ⟨hi, rfl⟩
+      · exact Or.inr ⟨hi, by rw [markOne_idem]⟩
+
+theorem markPolicy_rel (P : Params) (d : Name) : ∀ l, MarkRel P l (markPolicy P d l)
+  | [] => trivial
+  | q :: l => by
+    rw [markPolicy_cons]
+    split
+    · refine ⟨?_, MarkRel.refl P l⟩
+      unfold markOne
+      split
+      · rename_i h
+        right
+        simp only [Bool.and_eq_true, List.isEmpty_iff] at h
+        exact ⟨h.1, by simp [markOne, h.1, h.2]⟩
+      · exact Or.inl rfl
+    · exact ⟨Or.inl rfl, markPolicy_rel P d l⟩
+
+theorem markIf_foldl_rel (P : Params) (pols0 : List Policy) : ∀ (ds : List Name) (l : List Policy),
+    MarkRel P l (ds.foldl (markIf P pols0) l)
+  | [], l => MarkRel.refl P l
+  | d :: ds, l => by
+    simp only [List.foldl_cons]
+    refine MarkRel.trans ?_ (markIf_foldl_rel P pols0 ds _)
+    unfold markIf
+    split
+    · exact markPolicy_rel P d l
+    · exact MarkRel.refl P l
+
+theorem policyFor_markRel {P : Params} {d : Name} {p : Policy} (hp : p.issuers ≠ []) :
+    ∀ {l l' : List Policy}, MarkRel P l l' → policyFor P d l = some p → policyFor P d l' = some p
+  | [], [], _, h => by simp [policyFor] at h
+  | [], _ :: _, h, _ => by cases h
+  | _ :: _, [], h, _ => by cases h
+  | q :: l, q' :: l', hr, h => by
+    have hadm : admits P q' d = admits P q d := by
+      rcases hr.1 with rfl | ⟨_, rfl⟩
+      · rfl
+      · simp [admits, markOne_subjects]
+    rw [policyFor_cons] at h ⊢
+    rw [hadm]
+    split at h
+    · rename_i ha
+      simp only [Option.some.injEq] at h
+      subst h
+      rcases hr.1 with rfl | ⟨hi, _⟩
+      · simp [ha]
+      · exact absurd hi hp
+    · rename_i ha
+      simp only [ha]
+      exact policyFor_markRel hp hr.2 h
+
+theorem policyFor_map_fillDefault {P : Params} {d : Name} {p : Policy} (hp : p.issuers ≠ []) :
+    ∀ {l : List Policy}, policyFor P d l = some p → policyFor P d (l.map fillDefault) = some p
+  | [], h => by simp [policyFor] at h
+  | q :: l, h => by
+    have hadm : admits P (fillDefault q) d = admits P q d := by
+      unfold fillDefault; split <;> rfl
+    rw [List.map_cons, policyFor_cons, hadm]
+    rw [policyFor_cons] at h
+    split at h
+    · rename_i ha
+      simp only [Option.some.injEq] at h
+      subst h
+      have : fillDefault q = q := by
+        unfold fillDefault
+        split
+        · rename_i he; exact absurd (by simpa using he) hp
+        · rfl
+      simp [ha, this]
+    · rename_i ha
+      simp only [ha]
+      exact policyFor_map_fillDefault hp h
+
+
+
+/-- the fresh base policy (no subjects) is appended behind every existing policy -/
+theorem policyFor_addBase {P : Params} {d : Name} : ∀ l : List Policy, (policyFor P d l).isSome = true →
+    policyFor P d (addPolicy P newBase l) = policyFor P d l
+  | [], h => by simp [policyFor] at h
+  | ex :: rest, h => by
+    unfold addPolicy
+    have : (supersetOf P newBase.subjects ex || decide (ex.subjects.length < newBase.subjects.length)) = false := by
+      simp [supersetOf, newBase]
+    rw [this]
+    simp only [Bool.false_eq_true, if_false, policyFor_cons]
+    split
+    · rfl
+    · rename_i ha
+      rw [policyFor_cons] at h
+      simp only [ha] at h
+      exact policyFor_addBase rest h
+
 end CaddyModel.C11
